@@ -92,6 +92,8 @@ func newTerminal(f Frontend, backend Backend, mode TextReadMode) *terminal {
 	}
 	// only the main buffer has a scrollback (see Frontend.ScrollLines)
 	t.mainScreen.setKeepsScrollback(true)
+	// the cursor is visible until the application hides it (CSI ?25l)
+	t.viewFlags[VFShowCursor] = true
 	return t
 }
 
@@ -100,6 +102,19 @@ func (t *terminal) SetFrontend(f Frontend) {
 		t.frontend = f
 		t.mainScreen.SetFrontend(f)
 		t.altScreen.SetFrontend(f)
+		// Bring the new frontend up to date: it has seen none of the
+		// notifications that led to the current cursor, rendition and modes
+		// (the screen content it can read for itself).
+		t.announceScreen()
+		for i, v := range t.viewFlags {
+			f.ViewFlagChanged(ViewFlag(i), v)
+		}
+		for i, v := range t.viewInts {
+			f.ViewIntChanged(ViewInt(i), v)
+		}
+		for i, v := range t.viewStrings {
+			f.ViewStringChanged(ViewString(i), v)
+		}
 	})
 }
 
